@@ -236,8 +236,13 @@ impl<'a, D: DependencyProvider> Encoder<'a, D> {
             })
         {
             // If the dependencies are already available for the
-            // candidate, queue the candidate for processing.
-            if self.cache.are_dependencies_available_for(candidate) {
+            // candidate, queue the candidate for processing. A candidate that
+            // has already been ruled out is skipped: clauses can only be added
+            // for a solvable that is not assigned false, and they will still be
+            // added lazily if the candidate is ever selected.
+            if self.state.decision_tracker.assigned_value(candidate_var) != Some(false)
+                && self.cache.are_dependencies_available_for(candidate)
+            {
                 self.queue_solvable(candidate.into())
             }
 
